@@ -267,31 +267,23 @@ def _check_neighbors(res, D, d32, cutoff, margin, query, hay):
 
 
 def assign_keys(chks, records):
-    """Order-independent witness classes.  Failures are grouped by (function, clause, mode, position class, cell
-    kind); a group's class gets the suffix ':<distribution>' / ':<cutoff class>' only when EVERY
-    failure of the group has that feature; a group is dropped when a coarser group (position class and cell kind
-    both <=, no special suffix) failed too -- it contains the smaller witness.  Witness = fewest atoms."""
+    """Order- and tier-independent witness classes: function + mode + position class + cell kind.  Failures are grouped
+    by (function, clause, mode, position class, cell kind); within one position class an orthorhombic failure subsumes
+    the triclinic one (same code, more special cell).  Distribution and cutoff class are reported in the message only
+    (they vary with the sample).  Witness = fewest atoms."""
     groups = {}
     for r in records:
         groups.setdefault((r["chk"], r["func"], r["clause"], r["mode"], r["pos"], r["cell"]), []).append(r)
-    cell_rank = {"none": 0, "orthorhombic": 0, "triclinic": 1}
-    described = {}
-    for g, rs in groups.items():
-        sfx = []
-        if len({r["dist"] for r in rs}) == 1 and rs[0]["dist"] != "uniform":
-            sfx.append(":" + rs[0]["dist"])
-        if len({r["cut"] for r in rs}) == 1 and rs[0]["cut"] != "mid-cutoff":
-            sfx.append(":" + rs[0]["cut"])
-        described[g] = sfx
-    for g, rs in sorted(groups.items(), key=lambda kv: (POSITIONS.index(kv[0][4]), cell_rank[kv[0][5]])):
+    for g, rs in sorted(groups.items(), key=lambda kv: (POSITIONS.index(kv[0][4]), kv[0][5])):
         chk_name, func, clause, mode, pos, cell = g
-        subsumed = any(h != g and h[:4] == g[:4] and not described[h] and POSITIONS.index(h[4]) <= POSITIONS.index(pos) and cell_rank[h[5]] <= cell_rank[cell]
-                       for h in groups)
-        if subsumed:
+        if cell == "triclinic" and (g[:5] + ("orthorhombic",)) in groups:
             continue
         r = min(rs, key=lambda r: r["n"])
-        wc = func + ("" if mode == "periodic" else ":" + mode) + POS_SUFFIX[pos] + (":triclinic" if cell == "triclinic" else "") + "".join(described[g])
-        chks[chk_name].fail(clause, wc, r["what"] + f" ({len(rs)} failing evaluations in this class)", dict(r["input"], witness_class=wc, clause=clause),
+        wc = func + ("" if mode == "periodic" else ":" + mode) + POS_SUFFIX[pos] + (":triclinic" if cell == "triclinic" else "")
+        by = {}
+        for x in rs:
+            by[f"{x['dist']}/{x['cut']}"] = by.get(f"{x['dist']}/{x['cut']}", 0) + 1
+        chks[chk_name].fail(clause, wc, r["what"] + f" ({len(rs)} failing evaluations in this class: {by})", dict(r["input"], witness_class=wc, clause=clause),
                             observed=r["observed"], expected=r["expected"])
 
 
